@@ -28,7 +28,7 @@ def kinds_of(shape):
     n, f, fp, pat = shape["n"], shape["fault"], shape["fpos"], shape["pat"]
     out = []
     for j in range(1, n + 1):
-        if f in "EPNMASCDWRZTGH" and len(f) == 1 and j == fp:
+        if f in "EPNMASCDWRZTGHK" and len(f) == 1 and j == fp:
             out.append(f)
         elif pat == "allU":
             out.append("U")
@@ -74,6 +74,8 @@ def file_text(shape, j, kinds, formatted=False):
         pre += f"cfg_if! {{\n    if #[cfg(unix)] {{\n        mod missing{j};\n    }}\n}}\n"
     if k == "S":
         return (f"#![rustfmt::skip]\n{decl}fn  k{j}( ){{}}\n").encode(), None
+    if k == "K":
+        return (f"#![rustfmt::skip]\n{pre}fn k{j}() {{ let = ; }}\nfn  z( ){{}}\n").encode(), None
     if k in "EH":
         return (pre + f"fn k{j}() {{ let = ; }}\nfn  z( ){{}}\n").encode(), None
     if k == "Z":
